@@ -2,6 +2,8 @@ package service_account
 
 import (
 	"fmt"
+	"math"
+	"math/bits"
 
 	types "github.com/New-JAMneration/JAM-Protocol/internal/types"
 	utils "github.com/New-JAMneration/JAM-Protocol/internal/utilities"
@@ -186,12 +188,26 @@ func CalcThresholdBalance(aI types.U32, aO types.U64, aF types.U64) types.U64 {
 	/*
 		a_t ∈ N_B ≡ B_S + B_I*a_i + B_L*a_o
 	*/
-	storage := types.U64(types.BasicMinBalance) + types.U64(types.U32(types.AdditionalMinBalancePerItem)*aI) + types.U64(types.AdditionalMinBalancePerOctet)*aO
-	if storage < aF {
-		// result < 0
-		return 0
+	// Exact arithmetic: B_S + B_I*a_i < 2^37 cannot overflow 64 bits (a_i < 2^32), but the
+	// product must be taken in 64 bits, and adding B_L*a_o can carry out of 64 bits.
+	base := uint64(types.BasicMinBalance) + uint64(types.AdditionalMinBalancePerItem)*uint64(aI)
+	octHi, octLo := bits.Mul64(uint64(types.AdditionalMinBalancePerOctet), uint64(aO))
+	storage, carry := bits.Add64(base, octLo, 0)
+	hi := octHi + carry
+	if hi == 0 {
+		if storage < uint64(aF) {
+			// result < 0
+			return 0
+		}
+		return types.U64(storage - uint64(aF))
 	}
-	return storage - aF
+	// storage >= 2^64 > a_f
+	diff, borrow := bits.Sub64(storage, uint64(aF), 0)
+	if hi-borrow != 0 {
+		// the threshold does not fit N_B: no balance can reach it
+		return types.U64(math.MaxUint64)
+	}
+	return types.U64(diff)
 }
 
 /*
